@@ -1,6 +1,13 @@
-"""C17 — judged on recorded runs of the real mediator by TraceEcmc.tla (checks/runlevel.py)."""
+"""C17 — judged on recorded runs of the real mediator by TraceEcmc.tla (checks/runlevel.py), including runs that were dumped
+and resumed (the samples of a resumed run are samples of the same run)."""
 from checks import runlevel
 
 
 def run(chk):
     runlevel.run_for(chk, "C17")
+    from checks import c19
+    plans = [c19.PLAN_8_ATOMS, dict(cfg=c19.P + "coulomb_atoms/power_bounded_dump.ini", sched="heap_scheduler", end="40",
+                                    interval="7.3", dumps=[1, 2, 4], sets=["FixedIntervalSamplingEventHandler.sampling_interval=0.17"])]
+    if chk.tier == "thorough":
+        plans += [dict(c19.PLAN_8_ATOMS, end="30", dumps=None), dict(c19.PLAN_CROWDED_CELLS, end="9", dumps=None)]
+    c19.dump_resume(chk, plans, {"C17"})
